@@ -53,6 +53,8 @@ CONSTANTS
     FailStores,   \* BOOLEAN: may a source reader fail part-way
     Janitor,      \* BOOLEAN: are janitor cycles / expiry part of this configuration
     UseClock,     \* BOOLEAN: track LastAccess order (needed only where eviction order matters)
+    UpdVals,      \* subset of BOOLEAN: values UpdateMetadata may set the expired flag to ({} = no updates)
+    Deletes,      \* BOOLEAN: are explicit Delete calls part of this configuration
     Blocking      \* BOOLEAN: may a call arrive while its shard is held (caller parks in Lock)
 
 Keys    == 1..NKeys
@@ -167,17 +169,28 @@ EvRecord(kind, l, b0, b1, rem, skp, pre, clk, exempt) ==
 
 NewObj == CHOOSE i \in FreeObjs : \A j \in FreeObjs : i <= j
 
-\* a call on key k arrives while k's shard is held: the caller parks in Lock()
-Block(p, c) ==
+\* a call on key k arrives while k's shard is held: the caller parks in Lock().  The file
+\* backend's limit check (and eviction) precedes its lock, so a blocked file store may already
+\* have evicted: r is that eviction's outcome (BlockR), fixed to evict()'s result in Block.
+BlockOver(c) == IsFile /\ c[1] = "store" /\ bytes >= StoreLimit
+BlockR(p, c, r) ==
     /\ Blocking
     /\ pc[p] = "idle"
     /\ lock[ShardOf[c[2]]] # Free
     /\ c[1] = "store" => /\ nextVer[c[2]] <= MaxVer
                          /\ c[4] \in (IF FailStores THEN -1..(c[3]-1) ELSE {-1})
-                         /\ IsFile => bytes < StoreLimit   \* (the file backend's limit check precedes its lock)
     /\ pc' = [pc EXCEPT ![p] = "blocked"]
     /\ pend' = [pend EXCEPT ![p] = c]
-    /\ UNCHANGED <<entries, path, objs, bytes, count, dead, lock, op, handles, clock, nextVer, jan, limit, lastEv>>
+    /\ UNCHANGED <<lock, op, handles, clock, nextVer, jan, limit>>
+    /\ IF BlockOver(c)
+       THEN /\ lastEv' = EvRecord("store", StoreLimit, bytes, r.b, r.removed, r.skipped, entries, clock, {})
+            /\ entries' = r.ent
+            /\ bytes' = r.b
+            /\ count' = count - Cardinality(r.removed)
+            /\ dead' = [x \in Keys |-> IF x \in r.removed THEN dead[x] \cup {entries[x].ver} ELSE dead[x]]
+            /\ path' = [x \in Keys |-> IF x \in r.removed THEN 0 ELSE path[x]]
+            /\ GC(objs)
+       ELSE UNCHANGED <<entries, path, objs, bytes, count, dead, lastEv>>
 
 \* StoreBeginR(p,k,n,f,r): client p starts Cache(k, body(k, nextVer[k], n)); the source fails
 \* after f chunks when f >= 0.  r is the outcome of the store-triggered eviction (if any):
@@ -188,7 +201,7 @@ StoreOver(p) == bytes >= StoreLimit /\ ~(IsFile /\ pc[p] = "blocked")
 StoreHeld(k) == IF IsFile THEN HeldShards ELSE HeldShards \cup {ShardOf[k]}
 StoreBeginR(p, k, n, f, r) ==
     /\ Ready(p, <<"store", k, n, f>>)
-    /\ nextVer[k] <= MaxVer
+    /\ pc[p] = "blocked" \/ nextVer[k] <= MaxVer    \* (a blocked store was admitted when it was issued)
     /\ lock[ShardOf[k]] = Free
     /\ FreeObjs # {}
     /\ f \in (IF FailStores THEN -1..(n-1) ELSE {-1})
@@ -203,7 +216,7 @@ StoreBeginR(p, k, n, f, r) ==
           /\ count' = count - Cardinality(r.removed)
           /\ bytes' = r.b
           /\ dead' = [x \in Keys |-> IF x \in r.removed THEN dead[x] \cup {entries[x].ver} ELSE dead[x]]
-          /\ nextVer' = [nextVer EXCEPT ![k] = v + 1]
+          /\ nextVer' = IF refused THEN nextVer ELSE [nextVer EXCEPT ![k] = v + 1]
           /\ entries' = r.ent
           /\ UNCHANGED <<handles, clock, jan, limit>>
           /\ IF refused
@@ -223,6 +236,8 @@ StoreBeginR(p, k, n, f, r) ==
 
 StoreBegin(p, k, n, f) ==
     StoreBeginR(p, k, n, f, IF StoreOver(p) THEN Evict(StoreLimit, StoreHeld(k)) ELSE NoEvict)
+
+Block(p, c) == BlockR(p, c, IF BlockOver(c) THEN Evict(StoreLimit, HeldShards) ELSE NoEvict)
 
 StoreChunk(p) ==
     /\ pc[p] = "copying"
@@ -427,16 +442,16 @@ SetLimit(l) ==
     /\ UNCHANGED <<entries, path, objs, bytes, count, dead, lock, pc, op, pend, handles, clock, nextVer, jan, lastEv>>
 
 -----------------------------------------------------------------------------
-Calls == {<<"get", k>> : k \in Keys} \cup {<<"delete", k>> : k \in Keys}
-         \cup {<<"update", k, e>> : k \in Keys, e \in BOOLEAN}
+Calls == {<<"get", k>> : k \in Keys} \cup (IF Deletes THEN {<<"delete", k>> : k \in Keys} ELSE {})
+         \cup {<<"update", k, e>> : k \in Keys, e \in UpdVals}
          \cup {<<"store", k, n, f>> : k \in Keys, n \in 0..MaxChunks, f \in -1..(MaxChunks-1)}
 
 Next ==
     \/ \E p \in Clients, k \in Keys, n \in 0..MaxChunks, f \in -1..(MaxChunks-1) : StoreBegin(p, k, n, f)
     \/ \E p \in Clients : StoreChunk(p) \/ StoreAbort(p) \/ StoreCommit(p)
-    \/ \E p \in Clients, k \in Keys : Get(p, k) \/ Delete(p, k)
+    \/ \E p \in Clients, k \in Keys : Get(p, k) \/ (Deletes /\ Delete(p, k))
     \/ \E h \in 1..MaxHandles : Read(h) \/ CloseH(h)
-    \/ \E p \in Clients, k \in Keys, e \in BOOLEAN : UpdateMeta(p, k, e)
+    \/ \E p \in Clients, k \in Keys, e \in UpdVals : UpdateMeta(p, k, e)
     \/ \E p \in Clients, c \in Calls : Block(p, c)
     \/ \E k \in Keys : Expire(k) \/ JanRemove(k)
     \/ JanScan \/ JanEnsure \/ JanEvictStep
